@@ -38,11 +38,6 @@ Definition step_equiv (s s' : step) : Prop :=
   skind s = skind s' /\ Permutation (uuids s) (uuids s') /\ Permutation (req s) (req s') /\ requested s = requested s'.
 Definition plan_equiv (p p' : plan) : Prop := exists q, Permutation p q /\ Forall2 step_equiv q p'.
 
-(* the step of the plan that computes feature u *)
-Definition step_of_feature (p : plan) (u : nat) (s : step) : Prop := In s p /\ In u (uuids s).
-(* position of a step in the plan *)
-Definition plan_index (p : plan) (s : step) (i : nat) : Prop := nth_error p i = Some s.
-
 (* requests *)
 Definition dparent (defs : list fdef) (x y : nat) : Prop := exists d, In d defs /\ dname d = y /\ In x (dins d).
 Definition defs_ok (defs : list fdef) (rq : list nat) : Prop :=
